@@ -42,6 +42,11 @@ class SimLoop(asyncio.BaseEventLoop):
         self.horizon = None  # optional absolute limit for clock jumps
         self.set_exception_handler(self._on_exception)
         self.on_exception = None
+        self.on_step = None  # callable(step number), called before each loop iteration
+        self.force_running = False  # makes is_running() report True between iterations (foreign-thread model)
+
+    def is_running(self):
+        return getattr(self, "force_running", False) or super().is_running()
 
     # --- clock -----------------------------------------------------------
     def time(self):
@@ -71,6 +76,8 @@ class SimLoop(asyncio.BaseEventLoop):
         self.steps += 1
         if self.steps > self.step_cap:
             raise SimStepCap(f"step cap {self.step_cap} exceeded at t={self._now}")
+        if self.on_step is not None:
+            self.on_step(self.steps)
         super()._run_once()
 
     def _on_exception(self, loop, context):
